@@ -137,6 +137,11 @@ def gjk_nesterov_accelerated(
             inside = True
             break
 
+        if use_nesterov_acceleration and i >= max_interations // 4:
+            # the accelerated iteration did not converge in a quarter of the
+            # budget: finish with plain GJK
+            use_nesterov_acceleration = False
+
         if use_nesterov_acceleration:
             if normalize_support_direction:
                 momentum = (i + 2) / (i + 3)
